@@ -201,6 +201,12 @@ func (e *Env) mapHeaps(t types.Type) (dom, val string, ds, vs Sort) {
 	m := t.Underlying().(*types.Map)
 	k := sanitize(typeKey(m.Key())) + "__" + sanitize(typeKey(m.Elem()))
 	ks := e.SortOf(m.Key())
+	if e.mapInfo == nil {
+		e.mapInfo = map[string]mapInfo{}
+	}
+	if _, ok := e.mapInfo["Mv_"+k]; !ok {
+		e.mapInfo["Mv_"+k] = mapInfo{dom: "Md_" + k, ds: ArraySort(SInt, ArraySort(ks, SBool)), ks: ks, zero: e.Zero(m.Elem())}
+	}
 	return "Md_" + k, "Mv_" + k, ArraySort(SInt, ArraySort(ks, SBool)), ArraySort(SInt, ArraySort(ks, e.SortOf(m.Elem())))
 }
 
@@ -211,8 +217,8 @@ func (e *Env) subRef(owner types.Type, i int, r Term) Term {
 	if !e.declared[name] {
 		e.DeclFun(name, []Sort{SInt}, SInt)
 		e.DeclFun(name+"_inv", []Sort{SInt}, SInt)
-		e.Axiom(fmt.Sprintf("(forall ((r Int)) (! (and (= (%s_inv (%s r)) r) (= (base (%s r)) (base r)) (not (= (%s r) 0)) (=> (= (rtype r) %d) (= (rtype (%s r)) %d))) :pattern ((%s r))))",
-			name, name, name, name, e.Tag(typeKeyFull(owner)), name, e.Tag(typeKeyFull(st.Field(i).Type())), name))
+		e.Axiom(fmt.Sprintf("(forall ((r Int)) (! (and (= (%s_inv (%s r)) r) (= (base (%s r)) (base r)) (not (= (%s r) 0)) (= (refkind (%s r)) %d) (=> (= (rtype r) %d) (= (rtype (%s r)) %d))) :pattern ((%s r))))",
+			name, name, name, name, name, 100+e.Tag("refkind:"+name), e.Tag(typeKeyFull(owner)), name, e.Tag(typeKeyFull(st.Field(i).Type())), name))
 	}
 	return App(SInt, name, r)
 }
@@ -224,7 +230,7 @@ func (e *Env) fldRef(owner types.Type, i int, r Term) Term {
 	name := "fld_" + sanitize(typeKey(owner)) + "." + sanitize(st.Field(i).Name())
 	if !e.declared[name] {
 		e.DeclFun(name, []Sort{SInt}, SInt)
-		e.Axiom(fmt.Sprintf("(forall ((r Int)) (! (and (= (base (%s r)) (base r)) (not (= (%s r) 0))) :pattern ((%s r))))", name, name, name))
+		e.Axiom(fmt.Sprintf("(forall ((r Int)) (! (and (= (base (%s r)) (base r)) (not (= (%s r) 0)) (= (refkind (%s r)) %d)) :pattern ((%s r))))", name, name, name, 100+e.Tag("refkind:"+name), name))
 	}
 	return App(SInt, name, r)
 }
@@ -285,4 +291,16 @@ func intRange(t types.Type) (lo, hi string, ok bool) {
 		return "0", "18446744073709551615", true
 	}
 	return "", "", false
+}
+
+// aliveHeap: the set of allocated objects of struct type t (pseudo-heap).
+func (e *Env) aliveHeap(t types.Type) (string, Sort) {
+	return "A_" + sanitize(typeKey(t)), ArraySort(SInt, SBool)
+}
+
+type mapInfo struct {
+	dom  string
+	ds   Sort
+	ks   Sort
+	zero Term
 }
